@@ -273,6 +273,70 @@ Proof.
 Qed.
 Print Assumptions C04_box_computers_spec.
 
+(* line-height lifted to `computed` (CSS 2.1 10.8.1): on an element that declares it, the
+   computed value is spec_line_height of the element's own computed font size ... *)
+Theorem C04_line_height_computed : forall (t : tree) (n : N) (nd : node) v s q u (fs rfs : Q),
+  wf_tree t = true ->
+  node_at t n = Some nd -> n_kind nd = KElem ->
+  effective nd PLineHeight = Some (CExplicit v) ->
+  v = VDim s q u -> (s = "" \/ s = "normal")%string -> uses_metrics u = false -> u < 256 ->
+  (exists sf uf, computed exactQ true t n PFontSize = Ok (VDim sf fs uf)) ->
+  match n_parent nd with
+  | Some _ => exists sr ur, computed exactQ true t 0 PFontSize = Ok (VDim sr rfs ur)
+  | None => rfs = 16%Q
+  end ->
+  exists r, computed exactQ true t n PLineHeight = Ok r /\ value_eq r (spec_line_height fs rfs v).
+Proof. intros t n nd v s q u fs rfs WF. exact (line_height_computed t WF n nd v s q u fs rfs). Qed.
+Print Assumptions C04_line_height_computed.
+
+(* ... a percentage computes to the absolute LENGTH q% of the own font size (unit px), not
+   to a factor ... *)
+Theorem C04_line_height_percent_is_a_length : forall (t : tree) (n : N) (nd : node) q (fs : Q),
+  wf_tree t = true ->
+  node_at t n = Some nd -> n_kind nd = KElem ->
+  effective nd PLineHeight = Some (CExplicit (VDim "" q U_Perc)) ->
+  (exists sf uf, computed exactQ true t n PFontSize = Ok (VDim sf fs uf)) ->
+  (exists sr rfs ur, computed exactQ true t 0 PFontSize = Ok (VDim sr rfs ur)) ->
+  exists x, computed exactQ true t n PLineHeight = Ok (VDim "" x U_Px) /\ x == q / 100 * fs.
+Proof. intros t n nd q fs WF. exact (line_height_percent_computed t WF n nd q fs). Qed.
+Print Assumptions C04_line_height_percent_is_a_length.
+
+(* ... and a descendant without declaration inherits that computed value as it is, whatever
+   its own font size (only a <number> is re-multiplied, at used-value time) *)
+Theorem C04_line_height_inherited_as_computed : forall (t : tree) (n : N) (nd : node) j,
+  wf_tree t = true ->
+  node_at t n = Some nd -> n_kind nd = KElem ->
+  effective nd PLineHeight = None -> n_parent nd = Some j ->
+  computed exactQ true t n PLineHeight = computed exactQ true t j PLineHeight.
+Proof. intros t n nd j WF. exact (line_height_inherited t WF n nd j). Qed.
+Print Assumptions C04_line_height_inherited_as_computed.
+
+(* vertical-align: <percentage> (CSS 2.1 10.8.1: "a percentage of the 'line-height' value" of
+   the element itself).  `valign_percent` is the port of computed_values.go:975-977 +
+   text.StrutLayout; it is not part of `compute` (the strut of `line-height: normal` needs the
+   font), but every recorded result is audited against it (Check/C04.v, code 14).  Exact
+   instance: the fraction q/100 of the used line height (the computed length, or the computed
+   number times the element's computed font size); on font size 0 the implementation answers
+   0; it is undefined exactly for `line-height: normal`. *)
+Theorem C04_vertical_align_percent_spec : forall q fs lh x,
+  valign_percent exactQ q fs lh = Some x ->
+  (fs == 0 /\ x == 0) \/
+  (~ fs == 0 /\ exists y, spec_vertical_align_percent q fs lh = Some y /\ x == y).
+Proof. exact valign_percent_spec. Qed.
+Print Assumptions C04_vertical_align_percent_spec.
+
+Theorem C04_vertical_align_percent_defined : forall q fs lh,
+  ~ fs == 0 ->
+  (valign_percent exactQ q fs lh = None <-> spec_vertical_align_percent q fs lh = None).
+Proof. exact valign_percent_defined. Qed.
+Print Assumptions C04_vertical_align_percent_defined.
+
+Example C04_vertical_align_percent_example :
+  (* font-size 20px; line-height 150% computes to 30px: 50% -> 15;  line-height 1.5: the same *)
+  (exists x, valign_percent exactQ 50 20 (VDim "" 30 U_Px) = Some x /\ x == 15) /\
+  (exists y, spec_vertical_align_percent 50 20 (VDim "" (3 # 2) U_Scalar) = Some y /\ y == 15).
+Proof. split; eexists; (split; [reflexivity | vm_compute; reflexivity]). Qed.
+
 (* ex / ch (CSS Values 3 section 5.1.1): a length in ex (ch) on a property computed by `length`
    is the x-height (the advance of "0") of the font the element's OWN style selects -- the
    recorded metrics of that node -- scaled by the element's OWN computed font size.  Nothing
